@@ -735,7 +735,33 @@ def r16_8(U, rep, envs):
     raise AnalysisError('R16.8 found only %d environments with healthy ranges (floor 4: ant, hopper, humanoid, walker2d)' % nchecked)
 
 
+class _Relabel:
+  """Forwards obligations to a report under another rule label (a rule shared with another property)."""
+
+  def __init__(self, rep, rule):
+    self.rep, self.rule = rep, rule
+
+  def ok(self, rule, key, *a, **k):
+    return self.rep.ok(self.rule, '%s %s' % (rule, key), *a, **k)
+
+  def fail(self, rule, key, *a, **k):
+    return self.rep.fail(self.rule, '%s %s' % (rule, key), *a, **k)
+
+  def check(self, cond, rule, key, *a, **k):
+    return self.rep.check(cond, self.rule, '%s %s' % (rule, key), *a, **k)
+
+  def note(self, m):
+    return self.rep.note(m)
+
+  def stat(self, k, v):
+    return self.rep.stat('r16_9_' + k, v)
+
+
 def run(U, rep, tier):
+  # R16.9: a NECESSARY condition of "observations, rewards and states stay finite": no division / root / log / inverse
+  # trigonometric site reachable from the native pipelines is unguarded (the site classification of C03 R3.1-R3.3)
+  from braxlint.props import c03
+  c03.r3_sites(U, _Relabel(rep, 'R16.9'), tier)
   envs = physics_envs(U)
   if len(envs) < 11:
     raise AnalysisError('registry lists only %d physics environments (floor 11)' % len(envs))
